@@ -95,6 +95,20 @@ MUTATIONS = [
 ]
 
 
+# seventh round (seed C28j, sa/rules/s7C28.py; mutants/C28/richcmp-ident-*, richcmp-*-shortcut, keep-richcmp-*)
+TECHNIQUE += ('; seventh round: the emitted tp_richcompare switch evaluated under method answers given by name only, for four operand configurations (distinct objects, the same object twice, '
+              'other type, None) and compared between the configurations (operand opacity)')
+DECIDES += (' (OPERANDS) for every subset of the six comparison methods, with and without total_ordering, every op and the answer profiles {a<b, a==b, a>b, all NotImplemented, all False, all True}: '
+            'the generated tp_richcompare returns the same object after the same sequence of user-method calls whether the operands are two distinct instances, one object on both sides (`x != x` calls '
+            '__eq__(x, x) like object.__ne__; no identity shortcut), an instance and an object of another type, or an instance and None.')
+NOT_DECIDED = NOT_DECIDED + '; operand tests the C evaluator does not model (anything but ==, != between operands / None and Py_TYPE end in ANALYSIS-ERROR); identity or type shortcuts inside the BinopSlot template beyond C28-DISP / C28-SAME.'
+MUTATIONS += [
+    ('Cython/Compiler/ModuleNode.py', 'seed C28j: `if (o1 == o2) return False;` in the != derived from __eq__; the same shortcut in a direct `case Py_EQ`, in the derived <= / >= (True) and < / > (False), before the equality stage of a two-stage derived ordering, as a conditional expression around the __eq__ call', 'C28-OPERANDS richcmp:operands:same:<case kind>'),
+    ('Cython/Compiler/ModuleNode.py', '`if (o2 == Py_None) return True;` in the derived !=; `if (Py_TYPE(o1) != Py_TYPE(o2)) return NotImplemented;` in front of a user __eq__/__ne__', 'C28-OPERANDS richcmp:operands:none:<case kind>'),
+    ('Cython/Compiler/ModuleNode.py', 'NULL guard of the operands in front of the switch; the shortcut emitted as a C comment; the != block extracted into a local helper with early return', 'silent'),
+]
+
+
 # ======================================================================================= extraction of the slot tables
 class Row:
     def __init__(self, **kw):
@@ -578,9 +592,12 @@ class SwitchEval:
             raise Raised('generated C takes the truth value of %r' % (o,))
         funcs = {'likely': lambda x: x, 'unlikely': lambda x: x, '__Pyx_PyObject_IsTrue': istrue, '__Pyx_NewRef': lambda x: x,
                  'Py_DECREF': lambda x: 0, 'Py_INCREF': lambda x: 0, 'Py_XDECREF': lambda x: 0, 'Py_NewRef': lambda x: x}
+        # the two operands of this evaluation are distinct instances of the type itself; operand tests are the subject of C28-OPERANDS (s7C28)
+        own_type = H.CObj('type(o1)')
+        funcs['Py_TYPE'] = lambda o: own_type
         for meth in TRUTH:
             funcs[cname_of(meth)] = user(meth)
-        consts = {'Py_True': self.TRUE, 'Py_False': self.FALSE, 'Py_NotImplemented': self.NOTIMPL, 'NULL': 0}
+        consts = {'Py_True': self.TRUE, 'Py_False': self.FALSE, 'Py_NotImplemented': self.NOTIMPL, 'NULL': 0, 'Py_None': H.CObj('Py_None')}
         consts.update(self.labels)
         env = {self.params[0]: self.A, self.params[1]: self.B, self.params[2]: self.labels[op_label]}
         ev = H.CEval(consts, funcs)
